@@ -25,10 +25,19 @@ type streamReader struct {
 	reads    []int // requested sizes
 	consumed int
 	chunk    int // > 0: deliver at most this many bytes per Read (short reads without error)
+	empties  int // > 0: this many empty reads (0, nil) precede every read that delivers data (allowed by io.Reader)
+	emptyRun int
 }
 
 func (s *streamReader) Read(p []byte) (int, error) {
-	s.reads = append(s.reads, len(p))
+	if s.empties > 0 && s.emptyRun < s.empties && s.pos < len(s.data) {
+		s.emptyRun++
+		return 0, nil
+	}
+	s.emptyRun = 0
+	if len(s.reads) < 1<<16 {
+		s.reads = append(s.reads, len(p))
+	}
 	if s.pos >= len(s.data) {
 		return 0, io.EOF
 	}
